@@ -5,7 +5,9 @@ ROOT = os.path.dirname(os.path.dirname(os.path.abspath(__file__)))
 kf = json.load(open(os.path.join(ROOT, 'known_findings.json')))
 for pid in sys.argv[1:]:
     sp = importlib.util.spec_from_file_location('p', os.path.join(ROOT, 'props', pid + '.py')); m = importlib.util.module_from_spec(sp); sp.loader.exec_module(m)
+    fixed_ids = set(x['id'] for x in kf['findings'] if x['status'] == 'fixed')
     for f in getattr(m, 'PENDING_FINDINGS', []):
+        if f['id'] in fixed_ids: continue   # already repaired in /repo: a fixed entry suppresses nothing
         e = dict(id=f['id'], property=pid, status='open', harness=f['harness'], exclude_define=f['exclude_define'], witness_config=f.get('witness_config', {}),
                  witness_inputs=f['witness_inputs'], what=f['what'])
         if f.get('configs'): e['configs'] = f['configs']
